@@ -98,6 +98,8 @@ TableFailing(r, o) ==
     ELSE IF Accepts(r.prop, r.value) /\ ~o.valid THEN "Css21ValueIsValid"
     ELSE IF ~Accepts(r.prop, r.value) /\ o.onlycss2 /\ o.valid THEN "ValueOutsideCss21GrammarIsInvalid"
     ELSE IF o.defined /\ o.valid # o.anyprofile THEN "ValidIffSomeProfileAccepts"
+    \* the declaration (constructed, parsed) gets the verdict the registry gives for its name and value
+    ELSE IF \E i \in 1..Len(o.decl) : o.decl[i] # o.valid THEN "DeclarationVerdictIsRegistryVerdict"
     ELSE "ok"
 
 \* metamorphic: every variant's verdict equals the base verdict
